@@ -269,8 +269,14 @@ class CallMonitor:
     point where it was armed. Raises SimBudgetExceeded (deterministically: a pure count) when
     the event budget is exhausted. Wall clocks are never read."""
 
-    def __init__(self, budget=None):
+    def __init__(self, budget=None, cpu_limit=None):
         self.budget = budget
+        # Backstop for work that happens inside C calls and is therefore invisible to the event count (seen with a
+        # seeded change: SeedSequence hashing ever longer spawn keys while the tree degenerates into a chain): CPU
+        # seconds of this process spent in the monitored call, polled every 2048 call events. It reads a clock, so it is
+        # deliberately far (>= 30x) above the slowest legitimate call and only ever turns a stall into a verdict.
+        self.cpu_limit = cpu_limit
+        self.t_cpu = 0.0
         self.events = 0
         self.depth = 0
         self.max_depth = 0
@@ -287,10 +293,19 @@ class CallMonitor:
                 sys.setprofile(None)
                 self._armed = False
                 raise SimBudgetExceeded(f"{self.events} call events > budget {self.budget}")
+            if self.cpu_limit is not None and (self.events & 2047) == 0:
+                import time
+                if time.process_time() - self.t_cpu > self.cpu_limit:
+                    sys.setprofile(None)
+                    self._armed = False
+                    raise SimBudgetExceeded(f"stalled: more than {self.cpu_limit:.0f} CPU seconds in one call "
+                                            f"({self.events} call events so far)")
         elif event == "return":
             self.depth -= 1
 
     def __enter__(self):
+        import time
+        self.t_cpu = time.process_time()
         self.events = 0
         self.depth = 1  # our own return from __enter__ is the first event seen
         self.max_depth = 0
